@@ -766,6 +766,8 @@ def _dict_update(s):
         items = []
         if len(c.args) == 1 and isinstance(c.args[0], ast.Dict) and all(isinstance(k, ast.Constant) for k in c.args[0].keys):
             items += [(k.value, v) for k, v in zip(c.args[0].keys, c.args[0].values)]
+        elif len(c.args) == 1 and isinstance(c.args[0], ast.DictComp) and dictcomp_items(c.args[0]) is not None:
+            items += dictcomp_items(c.args[0])
         elif c.args:
             return None
         if any(k.arg is None for k in c.keywords):
@@ -866,6 +868,10 @@ class _Fold(ast.NodeTransformer):
     def visit_Call(self, node):
         self.generic_visit(node)
         f = node.func
+        # np.asarray(x) / np.asanyarray(x) without dtype: the same values
+        if isinstance(f, ast.Attribute) and f.attr in ("asarray", "asanyarray") and isinstance(f.value, ast.Name) and f.value.id in ("np", "numpy") \
+                and len(node.args) == 1 and not node.keywords:
+            return node.args[0]
         # getattr(obj, "name") -> obj.name
         if isinstance(f, ast.Name) and f.id == "getattr" and len(node.args) == 2 and not node.keywords and isinstance(node.args[1], ast.Constant) \
                 and isinstance(node.args[1].value, str) and node.args[1].value.isidentifier():
@@ -1382,6 +1388,61 @@ def sliced_inverse_sites(prog, fi):
 CALLEE_DEFAULT = "__callee_default__"      # stands for "the keyword is left out: the callee's own default applies"
 
 
+def dictcomp_items(x):
+    """{k: v for k, v in {..literal..}.items() [if v] [if v is not None]}  (or over a literal tuple of (key, value) pairs): the entries as
+    [(key, value)], a filtered value written `value if <test> else __callee_default__`; None when the comprehension is of another form"""
+    if not (isinstance(x, ast.DictComp) and len(x.generators) == 1):
+        return None
+    g = x.generators[0]
+    it = g.iter
+    pairs = None
+    if isinstance(it, ast.Call) and isinstance(it.func, ast.Attribute) and it.func.attr == "items" and isinstance(it.func.value, ast.Dict) \
+            and all(isinstance(kk, ast.Constant) for kk in it.func.value.keys):
+        pairs = list(zip(it.func.value.keys, it.func.value.values))
+    elif isinstance(it, (ast.Tuple, ast.List)) and all(isinstance(e_, (ast.Tuple, ast.List)) and len(e_.elts) == 2 and isinstance(e_.elts[0], ast.Constant) for e_ in it.elts):
+        pairs = [(e_.elts[0], e_.elts[1]) for e_ in it.elts]
+    if pairs is None or not (isinstance(g.target, ast.Tuple) and len(g.target.elts) == 2 and all(isinstance(t_, ast.Name) for t_ in g.target.elts)
+                             and isinstance(x.key, ast.Name) and x.key.id == g.target.elts[0].id and isinstance(x.value, ast.Name) and x.value.id == g.target.elts[1].id):
+        return None
+    vname = g.target.elts[1].id
+    kinds = []
+    for c_ in g.ifs:
+        if isinstance(c_, ast.Name) and c_.id == vname:
+            kinds.append("truthy")
+        elif isinstance(c_, ast.Compare) and isinstance(c_.left, ast.Name) and c_.left.id == vname and len(c_.ops) == 1 and isinstance(c_.ops[0], ast.IsNot) \
+                and isinstance(c_.comparators[0], ast.Constant) and c_.comparators[0].value is None:
+            kinds.append("notnone")
+        else:
+            return None
+    items = []
+    for kk, vv in pairs:
+        # getattr(obj, "name", None): the attribute (None when the object does not have it)
+        if isinstance(vv, ast.Call) and isinstance(vv.func, ast.Name) and vv.func.id == "getattr" and len(vv.args) == 3 and isinstance(vv.args[1], ast.Constant) \
+                and isinstance(vv.args[2], ast.Constant) and vv.args[2].value is None:
+            vv = ast.Attribute(value=vv.args[0], attr=vv.args[1].value, ctx=ast.Load())
+        if "truthy" in kinds:
+            vv = ast.IfExp(test=copy.deepcopy(vv), body=vv, orelse=ast.Name(id=CALLEE_DEFAULT, ctx=ast.Load()))
+        elif "notnone" in kinds:
+            test = ast.Compare(left=copy.deepcopy(vv), ops=[ast.IsNot()], comparators=[ast.Constant(value=None)])
+            vv = ast.IfExp(test=test, body=vv, orelse=ast.Name(id=CALLEE_DEFAULT, ctx=ast.Load()))
+        items.append((kk.value, vv))
+    return items
+
+
+def _notnone_default(v, callee_node, name):
+    """`x if x is not None else <callee default>` is `x` when the callee's own default for that parameter is None"""
+    if isinstance(v, ast.IfExp) and isinstance(v.orelse, ast.Name) and v.orelse.id == CALLEE_DEFAULT and isinstance(v.test, ast.Compare) \
+            and len(v.test.ops) == 1 and isinstance(v.test.ops[0], ast.IsNot) and dump(v.test.left) == dump(v.body):
+        a_ = callee_node.args
+        pos_ = [x.arg for x in a_.posonlyargs + a_.args]
+        dmap = dict(zip(pos_[len(pos_) - len(a_.defaults):], a_.defaults))
+        dmap.update({k.arg: d for k, d in zip(a_.kwonlyargs, a_.kw_defaults) if d is not None})
+        d = dmap.get(name)
+        if isinstance(d, ast.Constant) and d.value is None:
+            return v.body
+    return v
+
+
 def bind_call(prog, fi, callee_node, call, bound=False):
     """bind_args, with `**name` resolved through the flow-sensitive environment when it is a dict literal / dict(...) call with
     constant keys.  Returns (mapping, errors, complete) - complete is False when some **kwargs could not be resolved."""
@@ -1397,34 +1458,8 @@ def bind_call(prog, fi, callee_node, call, bound=False):
             items = [(kk.value, v) for kk, v in zip(x.keys, x.values)]
         elif isinstance(x, ast.Call) and isinstance(x.func, ast.Name) and x.func.id == "dict" and not x.args and all(kw.arg for kw in x.keywords):
             items = [(kw.arg, kw.value) for kw in x.keywords]
-        if items is None and isinstance(x, ast.DictComp) and len(x.generators) == 1:
-            # {k: v for k, v in {..literal..}.items() [if v] [if v is not None]}: the literal's entries, possibly filtered
-            g = x.generators[0]
-            it = g.iter
-            if isinstance(it, ast.Call) and isinstance(it.func, ast.Attribute) and it.func.attr == "items" and isinstance(it.func.value, ast.Dict) \
-                    and all(isinstance(kk, ast.Constant) for kk in it.func.value.keys) and isinstance(g.target, ast.Tuple) and len(g.target.elts) == 2 \
-                    and all(isinstance(t_, ast.Name) for t_ in g.target.elts) and isinstance(x.key, ast.Name) and x.key.id == g.target.elts[0].id \
-                    and isinstance(x.value, ast.Name) and x.value.id == g.target.elts[1].id:
-                vname = g.target.elts[1].id
-                kinds = []
-                for c_ in g.ifs:
-                    if isinstance(c_, ast.Name) and c_.id == vname:
-                        kinds.append("truthy")
-                    elif isinstance(c_, ast.Compare) and isinstance(c_.left, ast.Name) and c_.left.id == vname and len(c_.ops) == 1 and isinstance(c_.ops[0], ast.IsNot) \
-                            and isinstance(c_.comparators[0], ast.Constant) and c_.comparators[0].value is None:
-                        kinds.append("notnone")
-                    else:
-                        kinds.append("?")
-                if "?" not in kinds:
-                    items = []
-                    for kk, vv in zip(it.func.value.keys, it.func.value.values):
-                        # getattr(obj, "name", None): the attribute (None when the object does not have it)
-                        if isinstance(vv, ast.Call) and isinstance(vv.func, ast.Name) and vv.func.id == "getattr" and len(vv.args) == 3 and isinstance(vv.args[1], ast.Constant) \
-                                and isinstance(vv.args[2], ast.Constant) and vv.args[2].value is None:
-                            vv = ast.Attribute(value=vv.args[0], attr=vv.args[1].value, ctx=ast.Load())
-                        if "truthy" in kinds:
-                            vv = ast.IfExp(test=copy.deepcopy(vv), body=vv, orelse=ast.Name(id=CALLEE_DEFAULT, ctx=ast.Load()))
-                        items.append((kk.value, vv))
+        if items is None and isinstance(x, ast.DictComp):
+            items = dictcomp_items(x)
         if items is None and isinstance(x, ast.Call) and isinstance(x.func, ast.Attribute) and x.func.attr in ("model_dump", "dict"):
             inc = kwarg(x, "include")
             if isinstance(inc, (ast.Set, ast.List, ast.Tuple)) and all(isinstance(e_, ast.Constant) and isinstance(e_.value, str) for e_ in inc.elts):
@@ -1437,7 +1472,7 @@ def bind_call(prog, fi, callee_node, call, bound=False):
             if name in m:
                 errs.append(f"multiple values for '{name}'")
             elif name in pos or name in kwonly:
-                m[name] = v
+                m[name] = _notnone_default(v, callee_node, name)
             elif not kwarg_:
                 errs.append(f"unexpected keyword '{name}'")
     if not complete:
